@@ -64,7 +64,7 @@ def run(tier):
             ncorrupt = f4.result()
             grouped, nproc, slowest = fut.result()
         # ---- design-level model: the pipeline's emission points, two processes, the seed as adversary
-        rep.add_mc(r1, "Required assignment (all_dot_brackets emitted sorted): two runs of the 47 emission points; "
+        rep.add_mc(r1, "Required assignment (all_dot_brackets emitted sorted): two runs of the 49 emission points; "
                        "SameAcrossRuns, CleanIsFunction, SameMembers + chain/pipeline lemmas (function of the input "
                        "iff static taint is none)",
                    min_actions=("EmitSorted", "EmitList", "EmitBundle", "EmitGreedy", "EmitHashSet"))
